@@ -806,10 +806,15 @@ func sectionParse(rng *vh.Rng) {
 		}
 		// the two decidable hypotheses of print_parse_partial (WF = the parser's image, Lexable) must hold on every
 		// accepted expression and on every accepted source outside the {..} finding class
-		if impl != "err" && cl == "-" {
-			res.Dist(sec, c.root+" hypotheses wf,lexable="+w)
-			if w != "11" {
+		if impl != "err" && cl == "-" && len(w) == 3 {
+			res.Dist(sec, c.root+" hypotheses wf,lexable,la="+w)
+			if w[:2] != "11" {
 				res.Mismatch(vh.Mismatch{Section: "parse", Function: "hypotheses of print_parse_partial on the parser's image (wf, lexable)", Input: map[string]string{"root": c.root, "text": c.text}, Impl: "11", Model: w})
+			}
+			// laExpr is the hypothesis of print_parse_expr / create_pipe_equiv (no Lexable): it must hold on every accepted
+			// expression whose operands are not the one-byte keywords `[`, `]`, `:` (the only token shapes it leaves out)
+			if w[2] == '0' && !strings.ContainsAny(c.text, "[]") && !regexp.MustCompile(`(^|[\s(,])\s*:`).MatchString(c.text) {
+				res.Mismatch(vh.Mismatch{Section: "parse", Function: "hypothesis laExpr of print_parse_expr on the parser's image", Input: map[string]string{"root": c.root, "text": c.text}, Impl: "1", Model: "0"})
 			}
 		}
 	}
